@@ -433,3 +433,50 @@ Fixpoint diamond_calls (k : nat) : N :=
 
 Fixpoint rw_nodes (r : rw) : nat :=
   match r with RNode cs => S (list_sum (map rw_nodes cs)) | _ => 1%nat end.
+
+(* ------------------------------------------------------------------------------------------ *)
+(* 6. what happens to a panic raised below the handlers (a datastore call, an iterator).
+   A Go panic carries an arbitrary value; `recover()` returns it as `any`.
+     internal/concurrency/panic.go RecoverFromPanic:  *err = fmt.Errorf("recovered from panic %v ...", r)
+   formats the value with %v, which is defined for every value.  The variant
+     fmt.Errorf("... %w ...", r.(error))
+   asserts that the value is an error: the assertion itself panics, inside the deferred function,
+   for every other value.  Where the panic is raised decides who sees it first. *)
+
+Inductive pvalue :=
+| PVError      (* panic(err) *)
+| PVString     (* panic("...") / panic(fmt.Sprintf(...)) *)
+| PVStruct     (* any other non-error value *)
+| PVRuntime.   (* runtime.Error: nil map write, index out of range, nil dereference (an error) *)
+
+Definition implements_error (v : pvalue) : bool :=
+  match v with PVError | PVRuntime => true | _ => false end.
+
+(* RecoverFromPanic as coded: total *)
+Definition recover_to_error (v : pvalue) : go pvalue := Ok v.
+
+(* the r.(error) variant *)
+Definition recover_to_error_assert (v : pvalue) : go pvalue :=
+  if implements_error v then Ok v else Panic.
+
+(* the innermost recovery site above the panicking frame, read off the goroutine's stack *)
+Inductive psite :=
+| SHandler     (* the request goroutine: the gRPC recovery interceptor *)
+| STry         (* a conc/panics.Try of the resolvers: the panic becomes an error *)
+| SPipeline    (* a ListObjects pipeline worker: defer concurrency.RecoverFromPanic(&err) *)
+| SEvaluate    (* ListObjectsQuery.evaluate's `go handler()` or a reverse-expand pool goroutine:
+                  the conc pools re-panic in Wait, and nothing above `go handler()` recovers *)
+| SOther.      (* any other goroutine without a recovery of its own *)
+
+Inductive fate := FError | FInterceptor | FDies.
+
+Definition fate_with (rec : pvalue -> go pvalue) (s : psite) (v : pvalue) : fate :=
+  match s with
+  | SHandler => FInterceptor
+  | STry => FError
+  | SPipeline => match rec v with Ok _ => FError | _ => FDies end
+  | SEvaluate | SOther => FDies
+  end.
+
+Definition fate_of : psite -> pvalue -> fate := fate_with recover_to_error.
+Definition fate_of_assert_variant : psite -> pvalue -> fate := fate_with recover_to_error_assert.
